@@ -214,6 +214,11 @@ Definition set_cl (w : wreq) (cl : Z) : wreq :=
 Definition strip_cl (o : sout) : sout :=
   match o with Handled ce _ s => Handled ce 0 s | _ => o end.
 
+(* the same request with its body delivered by another (legal) pattern of Read calls *)
+Definition set_reads (r : creq) (k : N) : creq :=
+  {| q_ce := q_ce r; q_body := q_body r; q_raw := q_raw r; q_stream := q_stream r; q_reads := k;
+     q_rerr := q_rerr r; q_cerr := q_cerr r |}.
+
 Section Codec.
   Variable enc : codec -> Z -> bytes -> bytes.
   Variable dec : codec -> stream -> dres.
@@ -600,6 +605,11 @@ Section Codec.
     intros Hh Hr. unfold Model.client. destruct (client cc r) as [| |w]; try reflexivity.
     now rewrite on_wire_id.
   Qed.
+
+  (* HOW the body reader delivers its bytes (data together with EOF, short reads, zero-byte reads, one byte
+     at a time ...) decides nothing: the client sends the same request *)
+  Lemma client_ignores_read_pattern_l cc r k : fclient cc (set_reads r k) = fclient cc r.
+  Proof. reflexivity. Qed.
 
   (* a configured Content-Encoding header replaces what the compressor (or the caller) put there:
      the server sees exactly that value first, whatever was done to the body *)
